@@ -186,7 +186,18 @@ func Open(fileName string, opts *Options) (*AppendableFile, error) {
 			return nil, ErrCorruptedMetadata
 		}
 
-		mBs := make([]byte, binary.BigEndian.Uint32(mLenBs))
+		// the header can not be longer than the file that holds it
+		finfo, err := f.Stat()
+		if err != nil {
+			return nil, err
+		}
+
+		mLen := int64(binary.BigEndian.Uint32(mLenBs))
+		if mLen > finfo.Size()-int64(len(mLenBs)) {
+			return nil, ErrCorruptedMetadata
+		}
+
+		mBs := make([]byte, mLen)
 		_, err = r.Read(mBs)
 		if err != nil {
 			return nil, ErrCorruptedMetadata
@@ -544,7 +555,13 @@ func (aof *AppendableFile) ReadAt(bs []byte, off int64) (n int, err error) {
 		return 0, err
 	}
 
-	cBs := make([]byte, binary.BigEndian.Uint32(clenBs))
+	// a compressed chunk can not extend beyond the data appended so far
+	clen := int64(binary.BigEndian.Uint32(clenBs))
+	if clen > aof.offset()-off-int64(len(clenBs)) {
+		return 0, io.EOF
+	}
+
+	cBs := make([]byte, clen)
 	_, err = aof.readAt(cBs, off+4)
 	if err != nil {
 		return 0, err
